@@ -1,6 +1,7 @@
 """C09 - examples handed out are isolated from the stored data."""
 import gc
 import copy
+import pathlib
 import shutil
 import tempfile
 import warnings
@@ -31,7 +32,8 @@ RULE = ('family = one store (new / from_dict / from_list with immutable_warranty
         'history).')
 PROBES = ['iterator_kept_open', 'slice_dataset_kept', 'two_client_threads', 'mutated_then_reread_same_path', 'mutated_then_reread_other_path',
           'original_container_mutated', 'read_by_prefetch_worker',
-          'first_access_object_mutated', 'cached_access_object_mutated']
+          'first_access_object_mutated', 'cached_access_object_mutated',
+          'original_container_grew_or_shrank', 'empty_container_refused', 'dataset_from_json_file']
 BUDGET = {
     'quick': {'families': 7000, 'wall_cap': 420, 'shrink_s': 12},
     'thorough': {'families': 70000, 'wall_cap': 5400, 'shrink_s': 30},
@@ -48,7 +50,7 @@ ASSUMPTIONS = ['isolation is judged by deep equality with a snapshot normalised 
                'the disk cache lives on a real temporary directory removed after each run']
 
 STORES = ['new_pickle', 'new_pickle', 'new_copy', 'new_wu', 'cache', 'eager_cache', 'diskcache',
-          'cache_tuple', 'new_tuple']
+          'cache_tuple', 'new_tuple', 'new_json']
 PATHS = ['index', 'neg', 'key', 'iter', 'items', 'slice', 'copy', 'prefetch1', 'prefetchw']
 MUTS = ['set', 'del', 'append', 'clear', 'array', 'nested']
 
@@ -74,6 +76,16 @@ def gen(rng, tier, index):
     shape = rng.choice(['nested', 'array', 'all', 'flatlist'])
     if store.endswith('_tuple'):
         shape = 'tuple'
+    if store == 'new_json':
+        # new(<path of a JSON file>): the file's content, stored like a list / dict
+        shape = rng.choice(['nested', 'flatlist'])
+    if store in ('new_pickle', 'new_wu') and rng.random() < 0.06:
+        # an empty container that grows after construction (a loud refusal of
+        # the empty container is fine; serving the later additions is not)
+        kind = 'list' if store == 'new_wu' else kind
+        return [{'store': store, 'n': 0, 'kind': kind, 'shape': shape,
+                 'ops': [['mutate_original', 'grow', 0], ['read', 'iter', 0, 0],
+                         ['mutate_original', 'grow', 0], ['read', 'iter', 0, 0]]}]
     if rng.random() < 0.15 and store in ('cache', 'diskcache', 'new_pickle', 'new_copy',
                                          'cache_tuple'):
         # two client threads read and mutate concurrently (thread simulator)
@@ -112,7 +124,7 @@ def gen(rng, tier, index):
             elif r < 0.85:
                 ops.append(['mutate', rng.choice(MUTS), rng.randrange(0, 4)])
             elif store in ('new_pickle', 'new_wu'):
-                ops.append(['mutate_original', rng.choice(MUTS + ['replace']),
+                ops.append(['mutate_original', rng.choice(MUTS + ['replace', 'grow', 'shrink']),
                             rng.randrange(n)])
             elif store == 'diskcache':
                 # the next store(s) of the disk cache fail (ENOSPC / sqlite error)
@@ -194,6 +206,22 @@ def run(case):
             store = case['store']
             if store == 'new_tuple':
                 ds = lazy_dataset.new(orig)
+            elif store == 'new_json':
+                import json as _json
+                tmp = tempfile.mkdtemp(prefix='c09_')
+                with open(tmp + '/examples.json', 'w') as fd:
+                    _json.dump(orig, fd)
+                ds = lazy_dataset.new(tmp + '/examples.json' if n % 2 else
+                                      pathlib.Path(tmp + '/examples.json'))
+                probes['dataset_from_json_file'] = 1
+            elif store.startswith('new_') and n == 0:
+                try:
+                    ds = lazy_dataset.new(orig, immutable_warranty=store[4:])
+                except Exception:
+                    probes['empty_container_refused'] = 1
+                    return hist.outcome(case, nontrivial=True, key=hist.hkey(case),
+                                        violations=[], fired={'store_' + store: 1}, probes=probes,
+                                        stats={'ops': 0}, sample={'case': case}, digest_extra=None)
             elif store.startswith('new_'):
                 ds = lazy_dataset.new(orig, immutable_warranty=store[4:])
             else:
@@ -303,7 +331,19 @@ def run(case):
                     elif path == 'key':
                         check(i, ds['k%d' % i], path)
                     elif path == 'iter':
-                        for j, v in enumerate(ds):
+                        got_all = list(ds)
+                        try:
+                            ln = len(ds)
+                        except TypeError:
+                            ln = n
+                        if len(got_all) != n or ln != n:
+                            violations.append(hist.viol(
+                                'wrong_length', 'wrong_length:%s:%s' % (store, path),
+                                'the dataset built from %d examples has length %d and iterates '
+                                '%d examples (original container changed afterwards: %s)'
+                                % (n, ln, len(got_all), bool(fired.get('original_container_mutation')))))
+                            break
+                        for j, v in enumerate(got_all):
                             check(j, v, path)
                     elif path == 'items':
                         for j, v in enumerate(ds.items()):
@@ -339,7 +379,23 @@ def run(case):
                                    else 'cached_access_object_mutated'] = 1
                 elif op[0] == 'mutate_original':
                     _, how, i = op
-                    if how == 'replace':
+                    if how == 'grow':
+                        extra = payload(100 + len(orig), case['shape'])
+                        if kind == 'dict':
+                            orig['g%d' % len(orig)] = extra
+                        else:
+                            orig.append(extra)
+                        probes['original_container_grew_or_shrank'] = 1
+                    elif how == 'shrink':
+                        if kind == 'dict':
+                            orig.pop('k%d' % i, None)
+                        elif orig:
+                            orig.pop()
+                        probes['original_container_grew_or_shrank'] = 1
+                    elif (kind == 'dict' and 'k%d' % i not in orig) or \
+                            (kind != 'dict' and i >= len(orig)):
+                        pass        # that entry was removed from the caller's container
+                    elif how == 'replace':
                         if kind == 'dict':
                             orig['k%d' % i] = {'replaced': True}
                         else:
@@ -368,7 +424,7 @@ def run(case):
     return hist.outcome(case, nontrivial=nontrivial, key=hist.hkey(case),
                         violations=violations, fired=fired, probes=probes,
                         stats={'ops': len(case['ops'])},
-                        sample={'case': case, 'pristine_0': pristine[0]},
+                        sample={'case': case, 'pristine_0': pristine[0] if pristine else None},
                         digest_extra=None)
 
 
